@@ -64,6 +64,21 @@ func init() {
 	for _, n := range []string{"SwapUint32", "SwapUint64", "SwapInt32", "SwapInt64"} {
 		add("sync/atomic."+n, swap)
 	}
+	cas := func(fr *frame, a []value) value {
+		fr.m.syncPoint("atomic.cas")
+		p := a[0].(*value)
+		if p == nil {
+			fr.m.goPanic("nil pointer dereference (atomic cas)")
+		}
+		if fr.m.decide("atomic.cas", Cmp("=", (*p).(*Term), a[1].(*Term))) {
+			*p = a[2]
+			return True
+		}
+		return False
+	}
+	for _, n := range []string{"CompareAndSwapUint32", "CompareAndSwapUint64", "CompareAndSwapInt32", "CompareAndSwapInt64"} {
+		add("sync/atomic."+n, cas)
+	}
 	// atomic.Value is struct{ v any }
 	add("(*sync/atomic.Value).Load", func(fr *frame, a []value) value {
 		return (*a[0].(*value)).(structure)[0]
